@@ -315,3 +315,49 @@ pipeline = Contract(
                           "down-chunking plugin handing every chunk on in two pieces, one possibly without rows) and dd (paced by dc). Loop "
                           "plugins are not in the graph.",
                     nontrivial=lambda i: len(i["cuts"]) > 2))
+
+
+# ---- multiprocess mode: plugins inlined into the process-pool source must be parallel-safe ------------------------------------
+def _mp_native(i):
+    with contextlib.redirect_stdout(io.StringIO()), contextlib.redirect_stderr(io.StringIO()):
+        import strax
+        import contracts.mp_plugins as MP
+        warnings.simplefilter("ignore")
+        tmp = tempfile.mkdtemp(dir=_TMP_ROOT)
+        try:
+            st = strax.Context(storage=[strax.DataDirectory(tmp)], register=[MP.MPSource, MP.MPRowwise, MP.MPNumbering],
+                               allow_multiprocess=i["multiprocess"], allow_lazy=False, timeout=60)
+            st.set_context_config({"use_per_run_defaults": False})
+            st.log.setLevel(logging.CRITICAL)
+            try:
+                a = st.get_array("0", i["target"], progress_bar=False, max_workers=i["workers"], processor="threaded_mailbox")
+                return dict(error=None, values=[int(x) for x in a["n" if i["target"] == "mp_numbered" else "w"]])
+            except Exception as ex:  # noqa
+                return dict(error=f"{type(ex).__name__}: {str(ex)[:160]}", values=None)
+        finally:
+            shutil.rmtree(tmp, ignore_errors=True)
+
+
+def _mp_ens(S, a, r):
+    import contracts.mp_plugins as MP
+    n = MP.N_CHUNKS * MP.ROWS_PER_CHUNK
+    if a.target == "mp_numbered":
+        want = list(range(n))
+    else:
+        want = [3 * (7 * c + k) for c in range(MP.N_CHUNKS) for k in range(MP.ROWS_PER_CHUNK)]
+    return [(f"with and without a process pool the rows are those of the whole-run computation (a stateful, non-parallel plugin keeps "
+             f"running sequentially in one place) [error {r['error']}, got {r['values']}]", r["error"] is None and r["values"] == want)]
+
+
+def _mp_gen(rng, tier):
+    for target in ("mp_numbered", "mp_row"):
+        for mp, workers in ((False, 1), (True, 2), (True, 3), (False, 2)):
+            yield dict(target=target, multiprocess=mp, workers=workers)
+
+
+multiprocess = Contract(
+    F, "Context.get_array (process pool)", params=dict(target="V", multiprocess="bool", workers="int"), ensures=_mp_ens, raises={},
+    harness=Harness(native=_mp_native, gen=_mp_gen,
+                    scope="a process-pool source -> a stateless plugin -> a STATEFUL row-numbering plugin (parallel = False), 10 chunks; "
+                          "allow_multiprocess on / off, 1..3 workers, both targets (8 runs)",
+                    nontrivial=lambda i: i["multiprocess"]))
